@@ -127,8 +127,19 @@ Definition bfused (c : bcase) : bool :=
   | BChain | BZipLongest | BCross => side_fused (b_sa c) (b_a c) && side_fused (b_sb c) (b_b c)
   end.
 
+(* Chain's first input and ZipLongest's inputs are FusedPull: their behaviour scripts (the
+   harness inserts fuse(), the model a GFuse level) must be fused scripts -- checkable *)
+Definition bpre (c : bcase) : bool :=
+  let ua := levels (b_sa c) (b_h c) (s_scr (b_a c), sh (b_a c)) in
+  let ub := levels (b_sb c) (b_h c) (s_scr (b_b c), sh (b_b c)) in
+  match b_top c with
+  | BChain => fused_b (fst ua)
+  | BZipLongest => fused_b (fst ua) && fused_b (fst ub)
+  | _ => true
+  end.
+
 Definition bchk (c : bcase) (impl : trace) : N :=
   verdict (horizon_ok (b_sa c) (b_h c) (s_scr (b_a c), sh (b_a c)) &&
-           horizon_ok (b_sb c) (b_h c) (s_scr (b_b c), sh (b_b c)) &&
+           horizon_ok (b_sb c) (b_h c) (s_scr (b_b c), sh (b_b c)) && bpre c &&
            trace_eqb impl (brun c (length impl)))
           (gen_ok (bref c) (bfused c) impl).
